@@ -80,6 +80,7 @@ type Gen struct {
 	parents     []mergeEdge
 	tag         string
 	only        map[string]bool // havoc: heaps that may have been written at all (nil = any)
+	allocAfter  *Term           // havoc: allocation counter after the havocked code
 }
 
 type State struct {
@@ -115,6 +116,7 @@ func (s *State) Heap(name, sort string) Term {
 	case "init":
 		t = u.W.Const(name+"@0", sort)
 		u.heapInitFacts(name, t, TTrue)
+		u.heapWellTyped(name, t, TTrue, u.W.Const("alloc@0", SInt))
 	case "havoc":
 		pv := s.gen.parent.Heap(name, sort)
 		if s.gen.only != nil && !s.gen.only[name] {
@@ -135,6 +137,9 @@ func (s *State) Heap(name, sort string) Term {
 			u.Assume(s.gen.guard, Term{fmt.Sprintf("(forall ((p!f Ptr)) (! %s :pattern ((select %s p!f))))", body.S, t.S), SBool})
 		} else {
 			u.heapInitFacts(name, t, s.gen.guard)
+		}
+		if s.gen.allocAfter != nil {
+			u.heapWellTyped(name, t, s.gen.guard, *s.gen.allocAfter)
 		}
 	case "merge":
 		var vals []Term
@@ -278,4 +283,54 @@ func (o *Obligation) Query() string {
 	fmt.Fprintf(&b, "; obligation: %s\n; %s\n", o.Name, strings.ReplaceAll(o.Text, "\n", " "))
 	fmt.Fprintf(&b, "(assert %s)\n(assert (not %s))\n(check-sat)\n", o.Reach.S, o.Goal.S)
 	return b.String()
+}
+
+// heapWellTyped: every pointer / slice / map reference stored in the heap refers to allocated
+// memory (the standing well-typedness invariant of Go memory), stated for one heap version.
+func (u *Unit) heapWellTyped(name string, t Term, guard Term, alloc Term) {
+	gt, ok := u.W.heapTypes[name]
+	if !ok {
+		return
+	}
+	if strings.HasPrefix(name, "MV.") {
+		mt := gt.Underlying().(*types.Map)
+		k := Term{"k!w", u.W.SortOf(mt.Key())}
+		m := Term{"m!w", SPtr}
+		v := Select(Select(t, m), k)
+		f := u.typeFacts(v, mt.Elem(), alloc, 1)
+		if f.S == "true" || !mentionsPtr(mt.Elem()) {
+			return
+		}
+		f = Implies(Lt(PBase(m), alloc), f)
+		u.Assume(guard, Term{fmt.Sprintf("(forall ((m!w Ptr) (k!w %s)) (! %s :pattern (%s)))", k.Sort, f.S, v.S), SBool})
+		return
+	}
+	if strings.HasPrefix(name, "MD.") || strings.HasPrefix(name, "MC.") {
+		return
+	}
+	if !mentionsPtr(gt) {
+		return
+	}
+	p := Term{"p!w", SPtr}
+	v := Select(t, p)
+	f := u.typeFacts(v, gt, alloc, 1)
+	if f.S == "true" {
+		return
+	}
+	f = Implies(Lt(PBase(p), alloc), f)
+	u.Assume(guard, Term{fmt.Sprintf("(forall ((p!w Ptr)) (! %s :pattern (%s)))", f.S, v.S), SBool})
+}
+
+func mentionsPtr(t types.Type) bool {
+	switch tt := t.Underlying().(type) {
+	case *types.Pointer, *types.Slice, *types.Map, *types.Chan:
+		return true
+	case *types.Struct:
+		for i := 0; i < tt.NumFields(); i++ {
+			if mentionsPtr(tt.Field(i).Type()) {
+				return true
+			}
+		}
+	}
+	return false
 }
